@@ -22,15 +22,14 @@
 (*     after Empty: WCheckDone reads the flag; WCbStart / WCbEnd bracket the    *)
 (*     user callback (an item in Faults makes the callback raise: the process  *)
 (*     dies with a non-zero exit status); WPut = done_queue.put.               *)
-EXTENDS Quadtree, TLC
-CONSTANTS Depth, NW, Cap, AcceptSets, Apexes, FaultSets, Checked
+EXTENDS SparseLive, TLC
+CONSTANTS NW, Cap, AcceptSets, Apexes, FaultSets, Checked
 \* Checked = TRUE models the code with the exit-status checks (current tree); FALSE the code before the repair.
 
 Workers == 1..NW
 Free == 0
 
 \* ---- the same ground truth as Reduce.tla (TOAST-filtered flavour; Full accept set = unfiltered / generic)
-Passes(A, a, p) == (p[1] > a[1] \/ OnChain(p, a)) /\ p \in A
 RECURSIVE ReachAt(_, _, _)
 ReachAt(A, a, n) == IF n = 0 THEN {Root}
                     ELSE LET prev == ReachAt(A, a, n - 1) IN {k \in Level(n) : Passes(A, a, k) /\ Parent(k) \in prev}
@@ -156,6 +155,8 @@ EndedSet == Range(ended)
 OnlyOps == StartedSet \subseteq ops
 \* ... at most once ...
 AtMostOnce == NoDup(started)
+\* the sparse computation of the live set (used for deep pyramids) is the live set
+SparseAgrees == SLiveSet(acc, apex) = live
 \* ... and only after the callbacks of all its live non-leaf children have completed
 ChildrenFirst == \A i \in DOMAIN started : \A k \in Kids(started[i]) : k \in ops => k \in EndedSet
 ChildrenFirstStep == [][\A w \in Workers : WCbStart(w) => \A k \in Kids(witem[w]) : k \in ops => k \in EndedSet]_vars
